@@ -52,9 +52,23 @@ const (
 	VarWrappers    Kind = "var-every-spelling-of-the-entry-point"
 	MapWrappers    Kind = "map-every-spelling-of-the-entry-point"
 	UrlWrappers    Kind = "url-every-spelling-of-the-entry-point"
+	// First-seen histories: a tagged type of its own (no other carrier ever validates it) meets the library for the first
+	// time in a call that is special - it brings functions of its own under the built-in names, it overrides the field's
+	// rule, it asks for another tag name, or it reaches the type as a sub-object of a parent - and is then validated
+	// plainly: the tag's own rule judges the plain call.
+	StructFirstLocalFn  Kind = "struct-tag-first-seen-by-a-call-with-local-functions"
+	StructFirstOverride Kind = "struct-tag-first-seen-by-a-call-that-overrides-the-rule"
+	StructFirstOtherTag Kind = "struct-tag-first-seen-under-another-tag-name"
+	StructFirstNested   Kind = "struct-tag-first-seen-as-a-sub-object"
+	// Rule object edited in place between two calls (the key stays, its rules change; the number of keys does not):
+	// the second call is judged by what the object holds when it is made.
+	MapRMEdited    Kind = "map-rule-object-edited-between-calls"
+	UrlRMEdited    Kind = "url-rule-object-edited-between-calls"
+	StructRMEdited Kind = "struct-rule-object-edited-between-calls"
 )
 
-var All = []Kind{StructTag, StructRM, Var, Map, MapIface, SliceMap, Url, UrlEsc, StructTagHist, StructTagOtherTag, StructTagLocalFn, VarLocalFn, StructTagWide, MapLarge, StructRMAfterPlain, UrlMany, UrlTwice, UrlRMReused, StructWrappers, VarWrappers, MapWrappers, UrlWrappers}
+var All = []Kind{StructTag, StructRM, Var, Map, MapIface, SliceMap, Url, UrlEsc, StructTagHist, StructTagOtherTag, StructTagLocalFn, VarLocalFn, StructTagWide, MapLarge, StructRMAfterPlain, UrlMany, UrlTwice, UrlRMReused, StructWrappers, VarWrappers, MapWrappers, UrlWrappers,
+	StructFirstLocalFn, StructFirstOverride, StructFirstOtherTag, StructFirstNested, MapRMEdited, UrlRMEdited, StructRMEdited}
 
 // Box is the named carrier type for per-call rules.
 type Box[T any] struct{ F T }
@@ -62,9 +76,9 @@ type Box[T any] struct{ F T }
 // PathPrefix is the path under which the value is reported by each carrier ("" = no path).
 func PathPrefix(k Kind, v reflect.Value) string {
 	switch k {
-	case StructTag, StructTagHist, StructTagOtherTag, StructTagLocalFn, StructTagWide, StructRMAfterPlain, StructWrappers:
+	case StructTag, StructTagHist, StructTagOtherTag, StructTagLocalFn, StructTagWide, StructRMAfterPlain, StructWrappers, StructFirstLocalFn, StructFirstOverride, StructFirstOtherTag, StructFirstNested, StructRMEdited:
 		return "F"
-	case MapLarge, MapWrappers:
+	case MapLarge, MapWrappers, MapRMEdited:
 		return "map[k]"
 	case StructRM:
 		return "Box[" + typeArgName(v.Type()) + "].F"
@@ -72,7 +86,7 @@ func PathPrefix(k Kind, v reflect.Value) string {
 		return "map[k]"
 	case SliceMap:
 		return "[0]map[k]"
-	case Url, UrlEsc, UrlMany, UrlTwice, UrlRMReused, UrlWrappers:
+	case Url, UrlEsc, UrlMany, UrlTwice, UrlRMReused, UrlWrappers, UrlRMEdited:
 		return "k"
 	}
 	return ""
@@ -98,6 +112,27 @@ func TagType(t reflect.Type, rules string) reflect.Type {
 	}
 	st := reflect.StructOf([]reflect.StructField{{Name: "F", Type: t, Tag: reflect.StructTag(`valid:"` + rules + `"`)}})
 	stCache[k] = st
+	return st
+}
+
+var saltCache = map[stKey]reflect.Type{}
+
+// TagTypeSalted is TagType with a further tag key that makes the type distinct from every other carrier's type (and,
+// with alt, a second tag name whose rules no value satisfies).
+func TagTypeSalted(t reflect.Type, rules, salt string, alt bool) reflect.Type {
+	k := stKey{t, rules + "\x00" + salt}
+	if st, ok := saltCache[k]; ok {
+		return st
+	}
+	if len(saltCache) > 4096 {
+		saltCache = map[stKey]reflect.Type{}
+	}
+	tag := `valid:"` + rules + `" salt:"` + salt + `"`
+	if alt {
+		tag += ` alt:"required|alt1,eq=-77|alt2"`
+	}
+	st := reflect.StructOf([]reflect.StructField{{Name: "F", Type: t, Tag: reflect.StructTag(tag)}})
+	saltCache[k] = st
 	return st
 }
 
@@ -255,7 +290,7 @@ func Supports(k Kind, v reflect.Value) bool {
 	switch k {
 	case Url:
 		return v.Kind() == reflect.String && !strings.ContainsAny(v.String(), "&=?#%+") && !hasCtl(v.String())
-	case UrlEsc, UrlMany, UrlTwice, UrlRMReused, UrlWrappers:
+	case UrlEsc, UrlMany, UrlTwice, UrlRMReused, UrlWrappers, UrlRMEdited:
 		return v.Kind() == reflect.String && !strings.ContainsAny(v.String(), "&=?#")
 	case StructRM:
 		return boxOf(v) != nil
@@ -446,6 +481,54 @@ func Validate(k Kind, v reflect.Value, rules string) (string, bool) {
 				return valid.Url("/p?a=1&k="+url.QueryEscape(v.String())+"&z=2", valid.RM{"k": rules})
 			}},
 		})
+	case StructFirstLocalFn, StructFirstOverride, StructFirstOtherTag, StructFirstNested:
+		st := TagTypeSalted(v.Type(), rules, string(k), k == StructFirstOtherTag)
+		first := reflect.New(st)
+		first.Elem().Field(0).Set(v)
+		switch k {
+		case StructFirstLocalFn:
+			_ = valid.StructForFns(first.Interface(), nil, localFns())
+		case StructFirstOverride:
+			_ = valid.Struct(first.Interface(), valid.RM{"F": "required|first,le=-9|first"})
+		case StructFirstOtherTag:
+			_ = valid.ValidateStruct(first.Interface(), "alt")
+		case StructFirstNested:
+			parent := reflect.New(reflect.StructOf([]reflect.StructField{
+				{Name: "C", Type: st, Tag: `valid:"exist"`},
+				{Name: "L", Type: reflect.SliceOf(reflect.PtrTo(st)), Tag: `valid:"required"`},
+			}))
+			parent.Elem().Field(0).Set(first.Elem())
+			l := reflect.MakeSlice(parent.Elem().Field(1).Type(), 1, 1)
+			l.Index(0).Set(first)
+			parent.Elem().Field(1).Set(l)
+			_ = valid.Struct(parent.Interface())
+		}
+		p := reflect.New(st)
+		p.Elem().Field(0).Set(v)
+		err = valid.Struct(p.Interface())
+	case MapRMEdited:
+		m := reflect.MakeMap(reflect.MapOf(reflect.TypeOf(""), v.Type()))
+		m.SetMapIndex(reflect.ValueOf("k"), v)
+		rm := valid.RM{"k": "required|first,le=-9|first", "other": "to=1~9"}
+		_ = valid.Map(m.Interface(), rm)
+		rm["k"] = rules
+		err = valid.Map(m.Interface(), rm)
+	case UrlRMEdited:
+		u := "http://h/p?a=1&k=" + url.QueryEscape(v.String()) + "&z=2"
+		rm := valid.RM{"k": "required|first,le=-9|first", "a": "to=1~9"}
+		_ = valid.Url(u, rm)
+		rm["k"] = rules
+		err = valid.Url(u, rm)
+	case StructRMEdited:
+		mk := func() interface{} {
+			p := reflect.New(TagType(v.Type(), ""))
+			p.Elem().Field(0).Set(v)
+			return p.Interface()
+		}
+		rm := valid.RM{"F": "required|first,le=-9|first", "Other": "to=1~9"}
+		_ = valid.Struct(mk(), rm)
+		rm["F"] = rules
+		err = valid.Struct(mk(), rm)
 	case UrlRMReused:
 		rm := valid.RM{"k": rules, "a": "to=1~9"}
 		_ = valid.Url("http://h/p?a=1&k=other&z=2", rm)
